@@ -131,6 +131,9 @@ type Sched struct {
 	groupsDead map[int]bool
 }
 
+// wall-clock accounting of the phases of RunOne (diagnostics)
+var StatRun, StatTear, StatHooks time.Duration
+
 var (
 	activeMu sync.Mutex
 	active   *Sched
@@ -547,8 +550,10 @@ func RunOne(cfg *Config, prefix, prefixN []int, body func(s *Sched)) ExecResult 
 	active = s
 	main := s.Go("main", func() { body(s) })
 	s.cur = main
+	t0 := time.Now()
 	main.wake <- struct{}{}
 	<-s.finished
+	t1 := time.Now()
 	// teardown: unwind every parked goroutine
 	s.tearing = true
 	leaked := 0
@@ -592,9 +597,13 @@ func RunOne(cfg *Config, prefix, prefixN []int, body func(s *Sched)) ExecResult 
 		}
 	}
 	active = nil
+	t2 := time.Now()
 	for _, h := range s.endHooks {
 		h(s.outcome)
 	}
+	StatRun += t1.Sub(t0)
+	StatTear += t2.Sub(t1)
+	StatHooks += time.Since(t2)
 	r := ExecResult{Choices: s.choices, Outcome: s.outcome, Fails: s.fails, Stuck: s.stuck, Trace: s.trace, Hash: s.thash,
 		Steps: s.steps, Switches: s.nSwitch, Data: s.Data, Leaked: leaked}
 	if s.outcome == Panicked {
